@@ -649,6 +649,10 @@ class Expect:
         self.follow = follow
         self.flt = flt
         self.uuid_sc = uuid_sc
+        self.tags = {}      # entity id -> descriptor tag of docs/reference/reference/protocol/typedesc.rst
+
+    def _t(self, i, tag):
+        self.tags[i] = tag
 
     def fundamental(self, sc):
         i, name, ab, anc, labels = sc
@@ -671,7 +675,9 @@ class Expect:
                 elif fund is None:
                     raise KeyError('no concrete base')
                 ad = '[' + ','.join(self.sc(a)[1] for a in al) + ']'
+                self._t(i, 7)
                 return i, f'Enm({i},{cn(name)},1,{ad},[{",".join(cn(x) for x in labels)}])'
+            self._t(i, 7)
             return i, f'Enm({i},-,-,-,[{",".join(cn(x) for x in labels)}])'
         if fund is None:
             raise KeyError('no concrete base')
@@ -683,21 +689,27 @@ class Expect:
                     if a[0] == fund[0]:
                         break
             ads = [self.sc(a)[1] for a in al]
+            self._t(i, 3)
             return i, f'Sca({i},{cn(name)},1,{ads[-1] if ads else "-"},[{",".join(ads)}])'
         if fund[0] == i:
+            self._t(i, 2)
             return i, f'Bas({i})'
+        self._t(i, 3)
         return i, f'Sca({i},-,-,{self.sc(fund)[1]},-)'
 
     def ot(self, ot):
         if ot[0] == 'R':
+            self._t(ot[1], 10)
             return ot[1], f'Obj({ot[1]},{cn(ot[2])},1)'
         _, i, name, un, it = ot
         comps, op = (un, 1) if un else (it, 2)
+        self._t(i, 11)
         return i, f'Cmp({i},{cn(name)},0,{op},[{",".join(self.ot(c)[1] for c in comps)}])'
 
     def wrap_set(self, idd):
         i, d = idd
         si = h5('set-of::' + dashed(i))
+        self._t(si, 0)
         return si, f'Set({si},{d})'
 
     def sh(self, sh):
@@ -746,6 +758,7 @@ class Expect:
         typ = '-'
         if self.v2 and not free:
             typ = self.ot(ot)[1]
+        self._t(i, 1)
         return i, f'Shp({i},{typ},[{",".join(rel)}])'
 
     def ty(self, t):
@@ -765,6 +778,7 @@ class Expect:
                     sid += '\x00' + ':'.join(n for n, _ in els)
                 i = h5(sid)
             hdr = f'{cn(name)},{cb(pers)},[]' if self.v2 else '-,-,-'
+            self._t(i, 5 if named else 4)
             if named:
                 body = ','.join(f'{cn(n)}:{s[1]}' for (n, _), s in zip(els, subs))
                 return i, f'Ntp({i},{hdr},[{body}])'
@@ -774,6 +788,7 @@ class Expect:
             sub = self.ty(el)
             kind = {'a': 'array', 'r': 'range', 'm': 'multirange'}[tag]
             i = h5(f'{kind}\x00{dashed(sub[0])}')
+            self._t(i, {'a': 6, 'r': 9, 'm': 12}[tag])
             hdr = f'{cn(name)},{cb(pers)},[]' if self.v2 else '-,-,-'
             return i, f'{ {"a": "Arr", "r": "Rng", "m": "Mrg"}[tag] }({i},{hdr},{sub[1]})'
         raise ValueError(tag)
@@ -864,8 +879,9 @@ def do_describe(k):
             bad.append('annotation-block-not-a-suffix')
         else:
             body = nb
+    exp = Expect(v2, follow, flt, uu)
     try:
-        exp_id, exp_desc = Expect(v2, follow, flt, uu).ty(oterm)
+        exp_id, exp_desc = exp.ty(oterm)
     except KeyError:
         exp_id = exp_desc = None
     if exp_id is not None:
@@ -888,6 +904,9 @@ def do_describe(k):
                 bad.append('descriptor-emitted-twice')
             if ids and ids[-1] != tid.bytes:
                 bad.append('root-descriptor-not-last')
+            if exp_id is not None and any(
+                    exp.tags.get(bl[1:17].hex(), bl[0]) != bl[0] for bl in blobs):
+                bad.append('descriptor-tag-differs-from-documented-protocol')
     return case + '\t' + res + '\t' + pr + ''.join('\t!' + x for x in bad)
 
 
